@@ -29,6 +29,8 @@ pub fn check(tier: Tier) -> Check {
         Part::new("C16/disciplines", json!({"depth": tier.pick(3, 4), "pairs": false, "faults": true}), 0, tier.pick(45, 600)),
         // an extra poll of the context task while a fragment of the next packet sits behind a big one
         Part::new("C16/after-big", json!({"sizes": [9000, 70_000]}), 0, 120),
+        // a stream fed with repetitions of a QoS 1 / QoS 2 message between other messages
+        Part::new("C16/stream-repeat", json!({}), 0, 60),
         // one big outbound packet under every write mode
         Part::new("C16/bigwrite", json!({}), 0, 120),
         // a resumed session with 17 .. 300 packets to re-send: all of them go out on wakeups alone
@@ -198,7 +200,56 @@ fn bigwrite(name: String, params: Value) -> Scenario {
     })
 }
 
+/// A stream that gets a QoS 1 message, its repetition(s) by the broker (DUP = 1, same identifier), and
+/// more messages - one read each, or all in one read; wake-only, with and without a spurious poll of the
+/// stream in between: every copy is an item, and nothing parks the stream without a wakeup.
+fn stream_repeat(name: String, params: Value) -> Scenario {
+    Box::new(move |chz, ex| {
+        let copies = 1 + chz.choose(2);
+        let batch = chz.choose(2) == 1;
+        let spurious = chz.choose(2) == 1;
+        let q = 1 + chz.choose(2) as u8;
+        let mut sys = Sys::new("C16", &name, chz);
+        sys.params = params.clone();
+        sys.m.check_client_acks = false;
+        sys.bring_up(vec![]);
+        sys.apply(Ev::Start(OpSpec::Subscribe(SubscribeSpec::simple("s/r"))));
+        if sys.dead {
+            return sys.report(ex, &[]);
+        }
+        let ack = sys.ack_for(0, 0, "").unwrap();
+        sys.apply(Ev::Deliver(ack));
+        sys.apply(Ev::TakeStream(0));
+        if sys.dead {
+            return sys.report(ex, &[]);
+        }
+        let id = sys.m.subs[0].sub_id.unwrap();
+        let mut msgs = vec![super::common::inbound(q, false, 77, &[id], "first")];
+        for _ in 0..copies {
+            // (QoS 2: the copy is a re-delivery and is not yielded; QoS 1: every copy is a message)
+            msgs.push(super::common::inbound(q, true, 77, &[id], "first"));
+        }
+        msgs.push(super::common::inbound(1, false, 78, &[id], "second"));
+        msgs.push(super::common::inbound(0, false, 0, &[id], "third"));
+        if batch {
+            sys.apply(Ev::DeliverBatch(msgs));
+        } else {
+            for m in msgs {
+                sys.apply(Ev::Deliver(m));
+                if spurious {
+                    sys.apply(Ev::Spurious(Tid::Stream(0)));
+                }
+            }
+        }
+        sys.finish();
+        sys.report(ex, &["stream-item"]);
+    })
+}
+
 pub fn scenario(name: &str, params: &Value) -> Scenario {
+    if name == "C16/stream-repeat" {
+        return stream_repeat(name.to_string(), params.clone());
+    }
     if name == "C16/bigwrite" {
         return bigwrite(name.to_string(), params.clone());
     }
